@@ -23,7 +23,7 @@ RULE = (
 )
 
 VALUES = [-1, -2, 0, 0.0, False, 1, True, 1.0, 2, "a", "", "-1", ("t", 1), ("t", (1, 2)), None, 10 ** 18, -(10 ** 18),
-          "x" * 200, 3.5, (-1,), (-2,)]
+          "x" * 200, 3.5, (-1,), (-2,), 256, 257, 1000, "k" * 70000]
 KWSETS = [{}, {"a": 1}, {"a": 1, "b": 2}, {"b": 2, "a": 1}, {"a": [1, 2]}, {"a": {"k": 1}}, {"a": -1}, {"a": -2},
           {"a": None}, {"z": "s", "a": 1.0}, {"a": 1.0}, {"a": True},
           # nested containers: the documented key (json.dumps(..., sort_keys=True)) canonicalises nested dicts too
@@ -96,8 +96,27 @@ def model_key(cname, args, kwargs):
     return ("default", args, json.dumps(kwargs, sort_keys=True))
 
 
+def _fresh(v):
+    """An object equal to v but (where the type allows) not the same object: keys must compare by ==, not `is`."""
+    if isinstance(v, bool) or v is None:
+        return v
+    if isinstance(v, int):
+        return int(str(v))
+    if isinstance(v, float):
+        return float(repr(v))
+    if isinstance(v, str):
+        return "".join(list(v))
+    if isinstance(v, tuple):
+        return tuple(_fresh(x) for x in v)
+    if isinstance(v, list):
+        return [_fresh(x) for x in v]
+    if isinstance(v, dict):
+        return {_fresh(k): _fresh(x) for k, x in v.items()}
+    return v
+
+
 def _args(op):
-    return tuple(VALUES[i] for i in op["a"]), dict(KWSETS[op["k"]])
+    return tuple(_fresh(VALUES[i]) for i in op["a"]), _fresh(dict(KWSETS[op["k"]]))
 
 
 def run_history(ctx, ops, record=True):
